@@ -1,6 +1,13 @@
 (** C03 — specification vocabulary, transcribed from the property statement and
-    docs/content/docs/rules/regular_rule.adoc, written WITHOUT reference to the
-    matcher / tree functions of Model.v (only its data types and [hexval]). *)
+    docs/content/docs/rules/regular_rule.adoc.  It does not use the matcher, decoder or tree
+    FUNCTIONS of Model.v ([route_matches], [param_match], [unescape], [add_node], [find_node] ...).
+    It does share with Model.v: the data types (rule definitions, requests, [slash], [mres]), the
+    hex digit table [hexval], small list/string helpers ([mem], [contains], [has_bang], [nine] =
+    the nine HTTP methods, [is_nil], [of_bool]), the choice of the lookup path [lookup_path]
+    (RawPath if set), the engine dispatch [tm_match] (`exact` = string equality, glob / regex = the
+    recorded library answer), and [map_of] (a Go map rendered as a sorted association list; a later
+    equal key wins — so for `/:a/:a` a path_params condition sees the FIRST segment named a while
+    the map exposes the LAST, which is what the code does and the statement does not exclude). *)
 From HV Require Import Base.Prelude C03.Model.
 Open Scope string_scope.
 Open Scope list_scope.
